@@ -32,7 +32,8 @@
 //!           | n<number>/<bytes>              event
 //!           | ?...                           anything the decoder does not recognise (never printed by the model)
 use core::num::NonZeroU8;
-use std::cell::RefCell;
+use std::cell::{Cell, RefCell};
+use std::rc::Rc;
 use std::fmt::Write as _;
 use std::io::Write as _;
 
@@ -42,6 +43,7 @@ use embassy_time::{Duration, Timer};
 use rs_matter::acl::{AclEntry, AuthMode};
 use rs_matter::crypto::test_only_crypto;
 use rs_matter::dm::clusters::net_comm::DummyNetworks;
+use rs_matter::dm::AttrChangeNotifier;
 use rs_matter::dm::{
     Access, Async, Attribute, Cluster, Endpoint, Event, Handler, InvokeContext, InvokeReply, MatchContext, Metadata,
     Node, NonBlockingHandler, Privilege, Quality, ReadContext, ReadReply, Reply, WriteContext,
@@ -109,6 +111,22 @@ struct Case {
     event_paths: Option<Vec<Path>>,
     event_mins: Option<Vec<u64>>,
     limit: usize,
+    /// k=u: after the subscription is primed, `changes` are notified and `events2` pushed; the measured
+    /// interaction is the report the device sends on its own
+    update: bool,
+    changes: Vec<(u16, u32, Option<u32>)>,
+    events2: Vec<EventSpec>,
+    /// the peer's behaviour towards the measured interaction
+    peer: Peer,
+}
+
+/// What the client does with chunk number k (1-based) of the measured interaction, provided that
+/// chunk announces more: answer it with a non-Success status, or stop talking altogether.
+#[derive(Clone, Copy, Debug, PartialEq)]
+enum Peer {
+    Accept,
+    Refuse(usize),
+    Silent(usize),
 }
 
 fn parse_opt<T: std::str::FromStr>(s: &str) -> Option<T> {
@@ -146,11 +164,33 @@ fn parse_case(line: &str) -> Case {
         event_paths: None,
         event_mins: None,
         limit: 40,
+        update: false,
+        changes: vec![],
+        events2: vec![],
+        peer: Peer::Accept,
     };
     for kv in &f[2..] {
         let Some((k, v)) = kv.split_once('=') else { continue };
         match k {
-            "k" => c.subscribe = v == "s",
+            "k" => {
+                c.subscribe = v == "s" || v == "u";
+                c.update = v == "u";
+            }
+            "c" => {
+                if v != "-" {
+                    for ch in v.split(',').filter(|x| !x.is_empty()) {
+                        let f: Vec<&str> = ch.split('.').collect();
+                        c.changes.push((f[0].parse().unwrap(), f[1].parse().unwrap(), parse_opt(f[2])));
+                    }
+                }
+            }
+            "ab" => {
+                c.peer = match v.as_bytes().first() {
+                    Some(b'f') => Peer::Refuse(v[1..].parse().unwrap()),
+                    Some(b'x') => Peer::Silent(v[1..].parse().unwrap()),
+                    _ => Peer::Accept,
+                }
+            }
             "n" => {
                 for cl in v.split(';').filter(|x| !x.is_empty()) {
                     let (head, attrs) = cl.split_once(':').unwrap();
@@ -193,11 +233,12 @@ fn parse_case(line: &str) -> Case {
                     )
                 }
             }
-            "e" => {
+            "e" | "e2" => {
                 if v != "-" {
                     for e in v.split(',').filter(|x| !x.is_empty()) {
                         let f: Vec<&str> = e.split('.').collect();
-                        c.events.push(EventSpec {
+                        let list = if k == "e" { &mut c.events } else { &mut c.events2 };
+                        list.push(EventSpec {
                             ep: f[0].parse().unwrap(),
                             cl: f[1].parse().unwrap(),
                             ev: f[2].parse().unwrap(),
@@ -410,7 +451,8 @@ fn build_request(c: &Case, buf: &mut [u8]) -> Result<usize, Error> {
     wb.start_struct(&TLVTag::Anonymous)?;
     if c.subscribe {
         wb.bool(&TLVTag::Context(0), true)?;
-        wb.u16(&TLVTag::Context(1), 1)?;
+        // min interval floor: 0 for the report cases, so that the report follows the change at once
+        wb.u16(&TLVTag::Context(1), if c.update { 0 } else { 1 })?;
         wb.u16(&TLVTag::Context(2), 100)?;
     }
     if let Some(paths) = &c.attr_paths {
@@ -789,8 +831,91 @@ fn err_class(e: &Error) -> String {
     }
 }
 
+/// One interaction as the client sees it: takes the ReportData chunks arriving on `ex`, answers each of them
+/// as `peer` prescribes, and stops after the chunk that does not announce another one.
+async fn collect(
+    ex: &mut Exchange<'_>,
+    chunks: &RefCell<Vec<Vec<u8>>>,
+    tail: &RefCell<String>,
+    limit: usize,
+    peer: Peer,
+    mute: &Cell<bool>,
+) -> Result<&'static str, Error> {
+    loop {
+        let (more, suppress) = {
+            let rx = ex.recv().await?;
+            let opcode = rx.meta().proto_opcode;
+            if opcode == OpCode::StatusResponse as u8 {
+                // the responder answered with an error status instead of data
+                use rs_matter::tlv::{FromTLV, TLVElement};
+                let st = StatusResp::from_tlv(&TLVElement::new(rx.payload())).map(|s| s.status as u32).unwrap_or(9999);
+                *tail.borrow_mut() = format!("status:{}", st);
+                drop(rx);
+                ex.acknowledge().await?;
+                return Ok("status");
+            }
+            if opcode != OpCode::ReportData as u8 {
+                *tail.borrow_mut() = format!("opcode:{}", opcode);
+                return Ok("unexpected-opcode");
+            }
+            let p = rx.payload().to_vec();
+            let (mut more, mut suppress) = (false, false);
+            if let Ok(root) = walk(&p, 0, 0) {
+                more = kid(&root, 3).map(|k| k.uint == 1).unwrap_or(false);
+                suppress = kid(&root, 4).map(|k| k.uint == 1).unwrap_or(false);
+            }
+            chunks.borrow_mut().push(p);
+            (more, suppress)
+        };
+        let number = chunks.borrow().len();
+        if more {
+            match peer {
+                Peer::Refuse(k) if k == number => {
+                    ex.send_with(|_, wb| {
+                        StatusResp::write(wb, IMStatusCode::Failure)?;
+                        Ok(Some(OpCode::StatusResponse.into()))
+                    })
+                    .await?;
+                    return Ok("aborted");
+                }
+                Peer::Silent(k) if k == number => {
+                    // from now on nothing of the client reaches the device: no answer, no acknowledgement
+                    mute.set(true);
+                    return Ok("aborted");
+                }
+                _ => {}
+            }
+        }
+        if more && number >= limit {
+            // bound the run: refuse to continue
+            ex.send_with(|_, wb| {
+                StatusResp::write(wb, IMStatusCode::Failure)?;
+                Ok(Some(OpCode::StatusResponse.into()))
+            })
+            .await?;
+            return Ok("limit");
+        }
+        if more || !suppress {
+            ex.send_with(|_, wb| {
+                StatusResp::write(wb, IMStatusCode::Success)?;
+                Ok(Some(OpCode::StatusResponse.into()))
+            })
+            .await?;
+        } else {
+            ex.acknowledge().await?;
+        }
+        if !more {
+            return Ok("done");
+        }
+    }
+}
+
 fn run_case(c: &Case, hang_ms: u64) -> String {
-    let net = Net::reliable();
+    let mute = Rc::new(Cell::new(false));
+    let net = {
+        let mute = mute.clone();
+        Net::new(move |src, _, _, _| if src == A && mute.get() { e2e::Action::Drop } else { e2e::Action::Deliver })
+    };
     let crypto = test_only_crypto();
     // short MRP intervals: an abandoned exchange is noticed in tens of milliseconds
     let det = e2e::dev_det(Some(40), Some(40));
@@ -814,21 +939,22 @@ fn run_case(c: &Case, hang_ms: u64) -> String {
     state.suppress_start_up_event();
     let kv = matter_b.kv(DummyKvBlobStore);
     // events: pushed with the timestamps of the case (hook: the encoded width of the timestamp is part of the size)
-    let mut numbers = Vec::new();
-    for (i, e) in c.events.iter().enumerate() {
-        let prio = match e.prio {
-            0 => EventPriority::Debug,
-            1 => EventPriority::Info,
-            _ => EventPriority::Critical,
-        };
-        let num = (i + 1) as u64;
-        let r = state.events().verif_push_at(e.ep, e.cl, e.ev, prio, e.ts, &kv, |mut tw| {
-            tw.str(&EVENT_DATA_TAG, &event_fill(num, e.len))
-        });
-        match r {
-            Ok(n) => numbers.push(n),
-            Err(err) => return format!("R {} setup-err:{} n=0 |", c.id, err_class(&err)),
+    let push_events = |list: &[EventSpec], first: u64| -> Result<(), Error> {
+        for (i, e) in list.iter().enumerate() {
+            let prio = match e.prio {
+                0 => EventPriority::Debug,
+                1 => EventPriority::Info,
+                _ => EventPriority::Critical,
+            };
+            let num = first + i as u64;
+            state.events().verif_push_at(e.ep, e.cl, e.ev, prio, e.ts, &kv, |mut tw| {
+                tw.str(&EVENT_DATA_TAG, &event_fill(num, e.len))
+            })?;
         }
+        Ok(())
+    };
+    if let Err(err) = push_events(&c.events, 1) {
+        return format!("R {} setup-err:{} n=0 |", c.id, err_class(&err));
     }
     let dm = InteractionModel::new(&matter_b, &crypto, &*buffers, SynthDm(Async(&synth), &synth), &kv, &*state);
     let responder = Responder::new_default(&dm);
@@ -840,8 +966,13 @@ fn run_case(c: &Case, hang_ms: u64) -> String {
     };
     req.truncate(req_len);
 
-    let chunks: RefCell<Vec<Vec<u8>>> = RefCell::new(Vec::new());
+    let first: RefCell<Vec<Vec<u8>>> = RefCell::new(Vec::new()); // the request's own answer (priming for k=u)
+    let report: RefCell<Vec<Vec<u8>>> = RefCell::new(Vec::new()); // k=u: the report
+    let again: RefCell<Vec<Vec<u8>>> = RefCell::new(Vec::new()); // the same request once more after a refusal
     let tail: RefCell<String> = RefCell::new(String::new());
+    let tail2: RefCell<String> = RefCell::new(String::new());
+    let next_outcome: RefCell<Option<String>> = RefCell::new(None);
+    let subs_left: Cell<Option<usize>> = Cell::new(None);
     let limit = c.limit;
     let subscribe = c.subscribe;
 
@@ -854,75 +985,107 @@ fn run_case(c: &Case, hang_ms: u64) -> String {
         )
         .coalesce();
 
-        let client = async {
-            let mut ex = Exchange::initiate(&matter_a, &crypto, NonZeroU8::new(1).unwrap(), B_NODE).await?;
-            let op = if subscribe { OpCode::SubscribeRequest } else { OpCode::ReadRequest };
-            ex.send(op, &req).await?;
-            loop {
-                let (more, suppress) = {
-                    let rx = ex.recv().await?;
-                    let opcode = rx.meta().proto_opcode;
-                    if opcode == OpCode::StatusResponse as u8 {
-                        // the responder answered with an error status instead of data
-                        use rs_matter::tlv::{FromTLV, TLVElement};
-                        let st = StatusResp::from_tlv(&TLVElement::new(rx.payload())).map(|s| s.status as u32).unwrap_or(9999);
-                        *tail.borrow_mut() = format!("status:{}", st);
+        // the request and its answer; for a subscription also the SubscribeResponse
+        macro_rules! request {
+            ($chunks:expr, $tail:expr, $peer:expr) => {
+                async {
+                    let mut ex = Exchange::initiate(&matter_a, &crypto, NonZeroU8::new(1).unwrap(), B_NODE).await?;
+                    let op = if subscribe { OpCode::SubscribeRequest } else { OpCode::ReadRequest };
+                    ex.send(op, &req).await?;
+                    let r = collect(&mut ex, $chunks, $tail, limit, $peer, &mute).await?;
+                    if r == "done" && subscribe {
+                        let rx = ex.recv().await?;
+                        let opcode = rx.meta().proto_opcode;
+                        if opcode != OpCode::SubscribeResponse as u8 {
+                            *$tail.borrow_mut() = format!("opcode:{}", opcode);
+                            return Ok::<&'static str, Error>("no-subscribe-response");
+                        }
                         drop(rx);
                         ex.acknowledge().await?;
-                        return Ok::<&'static str, Error>("status");
                     }
-                    if opcode != OpCode::ReportData as u8 {
-                        *tail.borrow_mut() = format!("opcode:{}", opcode);
-                        return Ok("unexpected-opcode");
-                    }
-                    let p = rx.payload().to_vec();
-                    let (mut more, mut suppress) = (false, false);
-                    if let Ok(root) = walk(&p, 0, 0) {
-                        more = kid(&root, 3).map(|k| k.uint == 1).unwrap_or(false);
-                        suppress = kid(&root, 4).map(|k| k.uint == 1).unwrap_or(false);
-                    }
-                    chunks.borrow_mut().push(p);
-                    (more, suppress)
-                };
-                if more && chunks.borrow().len() >= limit {
-                    // bound the run: refuse to continue
-                    ex.send_with(|_, wb| {
-                        StatusResp::write(wb, IMStatusCode::Failure)?;
-                        Ok(Some(OpCode::StatusResponse.into()))
-                    })
-                    .await?;
-                    return Ok("limit");
+                    Ok(r)
                 }
-                if more || !suppress {
-                    ex.send_with(|_, wb| {
-                        StatusResp::write(wb, IMStatusCode::Success)?;
-                        Ok(Some(OpCode::StatusResponse.into()))
-                    })
-                    .await?;
-                } else {
-                    ex.acknowledge().await?;
+            };
+        }
+
+        let client = async {
+            if !c.update {
+                let r = request!(&first, &tail, c.peer).await?;
+                if r == "aborted" && matches!(c.peer, Peer::Refuse(_)) {
+                    // the next interaction: the same request, and a peer that answers
+                    let r2 = request!(&again, &tail2, Peer::Accept).await?;
+                    *next_outcome.borrow_mut() = Some(r2.to_string());
                 }
-                if !more {
+                return Ok::<&'static str, Error>(r);
+            }
+
+            // k=u: prime the subscription, change things, take the report the device sends on its own
+            let r = request!(&first, &tail, Peer::Accept).await?;
+            if r != "done" {
+                return Ok("priming-failed");
+            }
+            Timer::after(Duration::from_millis(5)).await;
+            for (ep, cl, at) in &c.changes {
+                match at {
+                    Some(at) => dm.notify_attr_changed(*ep, *cl, *at),
+                    None => dm.notify_cluster_changed(*ep, *cl),
+                }
+            }
+            if !c.events2.is_empty() {
+                push_events(&c.events2, c.events.len() as u64 + 1)?;
+                let e = &c.events2[0];
+                state.subscriptions().notify_event_emitted(e.ep, e.cl, e.ev);
+            }
+            let accepted = embassy_futures::select::select(
+                Exchange::accept(&matter_a),
+                Timer::after(Duration::from_millis(120)),
+            )
+            .await;
+            let r = match accepted {
+                embassy_futures::select::Either::First(ex) => {
+                    let mut ex = ex?;
+                    collect(&mut ex, &report, &tail, limit, c.peer, &mute).await?
+                }
+                embassy_futures::select::Either::Second(_) => "quiet",
+            };
+            // let the device finish its side (a peer that went silent is noticed when MRP gives up):
+            // wait until no report is in flight any more
+            for _ in 0..600 {
+                Timer::after(Duration::from_millis(10)).await;
+                if state.subscriptions().verif_report_slot_free() {
                     break;
                 }
             }
-            if subscribe {
-                let rx = ex.recv().await?;
-                let opcode = rx.meta().proto_opcode;
-                if opcode != OpCode::SubscribeResponse as u8 {
-                    *tail.borrow_mut() = format!("opcode:{}", opcode);
-                    return Ok("no-subscribe-response");
-                }
-                drop(rx);
-                ex.acknowledge().await?;
+            subs_left.set(Some(state.subscriptions().verif_fabric_view().len()));
+            if r == "aborted" && matches!(c.peer, Peer::Silent(_)) {
+                // The peer comes back (fresh sessions on both sides, the old one is marked expired by the
+                // device): the reporter retries after its back-off, and that report is the next interaction.
+                e2e::preset_case_session(&matter_a, &crypto, A_NODE, B_NODE, 3, 4, e2e::node_addr(B), 1, Default::default())?;
+                e2e::preset_case_session(&matter_b, &crypto, B_NODE, A_NODE, 4, 3, e2e::node_addr(A), 1, Default::default())?;
+                mute.set(false);
+                let accepted = embassy_futures::select::select(
+                    Exchange::accept(&matter_a),
+                    Timer::after(Duration::from_millis(6000)),
+                )
+                .await;
+                let r2 = match accepted {
+                    embassy_futures::select::Either::First(ex) => {
+                        let mut ex = ex?;
+                        collect(&mut ex, &again, &tail2, limit, Peer::Accept, &mute).await?
+                    }
+                    embassy_futures::select::Either::Second(_) => "quiet",
+                };
+                *next_outcome.borrow_mut() = Some(r2.to_string());
             }
-            Ok("done")
+            Ok(r)
         };
 
+        // (a peer that went silent in a report is waited for; that takes as long as MRP needs to give up)
+        let patience = if c.update && matches!(c.peer, Peer::Silent(_)) { 10_000 } else { hang_ms };
         match select3(
             core::pin::pin!(device),
             core::pin::pin!(client),
-            core::pin::pin!(Timer::after(Duration::from_millis(hang_ms))),
+            core::pin::pin!(Timer::after(Duration::from_millis(patience))),
         )
         .await
         {
@@ -933,17 +1096,36 @@ fn run_case(c: &Case, hang_ms: u64) -> String {
         }
     });
 
+    let texts = |chunks: &RefCell<Vec<Vec<u8>>>| -> (usize, String) {
+        let chunks = chunks.borrow();
+        let mut next_idx = std::collections::BTreeMap::new();
+        let t: Vec<String> = chunks.iter().map(|b| decode_chunk(c, b, &mut next_idx).text).collect();
+        (chunks.len(), t.join(";"))
+    };
     let mut out = format!("R {} {}", c.id, outcome);
     if !tail.borrow().is_empty() {
         write!(out, ",{}", tail.borrow()).unwrap();
     }
-    let chunks = chunks.borrow();
-    write!(out, " n={} |", chunks.len()).unwrap();
+    let (n, t) = texts(if c.update { &report } else { &first });
+    write!(out, " n={} | {}", n, t).unwrap();
+    if let Some(k) = subs_left.get() {
+        write!(out, " subs={}", k).unwrap();
+    }
+    if let Some(o2) = next_outcome.borrow().as_ref() {
+        write!(out, " next {}", o2).unwrap();
+        if !tail2.borrow().is_empty() {
+            write!(out, ",{}", tail2.borrow()).unwrap();
+        }
+        let (n2, t2) = texts(&again);
+        write!(out, " n={} | {}", n2, t2).unwrap();
+    }
+    if std::env::var("C14_DEBUG").is_ok() {
+        for t in net.tap().iter() {
+            eprintln!("{} ms: {} -> {} len {} {:?}", t.t_ms, t.src, t.dst, t.bytes.len(), t.action);
+        }
+    }
     // every datagram of the device must respect the transport's maximum
     let too_big = net.tap().iter().filter(|t| t.src == B && t.bytes.len() > MAX_TX_PACKET_SIZE).count();
-    let mut next_idx = std::collections::BTreeMap::new();
-    let texts: Vec<String> = chunks.iter().map(|b| decode_chunk(c, b, &mut next_idx).text).collect();
-    write!(out, " {}", texts.join(";")).unwrap();
     if too_big > 0 {
         write!(out, " oversize-datagrams={}", too_big).unwrap();
     }
@@ -1051,6 +1233,12 @@ struct CaseB {
     e: Vec<String>,
     p: String,
     m: String,
+    /// k=u: subscription report after the changes `c` and the events `e2`
+    upd: bool,
+    c: Vec<String>,
+    e2: Vec<String>,
+    /// the peer: "" | f<k> | x<k>
+    ab: String,
 }
 
 impl Gen {
@@ -1058,24 +1246,149 @@ impl Gen {
         let id = format!("{}{}", &stream[..1], self.lines.len());
         *self.streams.entry(stream.to_string()).or_insert(0) += 1;
         let e = if c.e.is_empty() { "-".to_string() } else { c.e.join(",") };
-        self.lines.push(format!(
-            "R {} k={} n={} q={} f={} e={} p={} m={} lim=200 tx={} rs={}",
+        let mut line = format!(
+            "R {} k={} n={} q={} f={} e={} p={} m={}",
             id,
-            if c.sub { "s" } else { "r" },
+            if c.upd { "u" } else if c.sub { "s" } else { "r" },
             c.n.join(";"),
             if c.q.is_empty() { "-" } else { &c.q },
             if c.f.is_empty() { "-" } else { &c.f },
             e,
             if c.p.is_empty() { "-" } else { &c.p },
             if c.m.is_empty() { "-" } else { &c.m },
-            self.tx,
-            RESERVE
-        ));
+        );
+        if c.upd {
+            write!(
+                line,
+                " c={} e2={}",
+                if c.c.is_empty() { "-".to_string() } else { c.c.join(",") },
+                if c.e2.is_empty() { "-".to_string() } else { c.e2.join(",") }
+            )
+            .unwrap();
+        }
+        if !c.ab.is_empty() {
+            write!(line, " ab={}", c.ab).unwrap();
+        }
+        write!(line, " lim=200 tx={} rs={}", self.tx, RESERVE).unwrap();
+        self.lines.push(line);
     }
     /// what an empty reply can take (after the struct opener, the subscription id and one array opener)
     fn fresh_room(&self, sub: bool) -> usize {
         self.tx - RESERVE - (if sub { 4 } else { 1 }) - 2
     }
+}
+
+type ClusterInfo = (u16, u32, u32, Vec<String>, Vec<u32>);
+
+/// a random node and request; `oversize`: values that do not fit an empty message may occur
+fn random_case(g: &mut Gen, sub: bool, oversize: bool) -> (CaseB, Vec<ClusterInfo>) {
+    let room = g.fresh_room(sub);
+    let n_cl = g.rng.range(1, 3) as usize;
+    let eps = [0u16, 1, 300];
+    let cls = [100u32, 300, 70000];
+    let dvs = [7u32, 300, 70000, 4000000000];
+    let mut clusters: Vec<ClusterInfo> = Vec::new();
+    for i in 0..n_cl {
+        let ep = eps[i.min(2)];
+        let cl = *g.rng.pick(&cls);
+        if clusters.iter().any(|c| c.0 == ep && c.1 == cl) {
+            continue;
+        }
+        let dv = *g.rng.pick(&dvs);
+        let n_at = g.rng.range(1, 6) as usize;
+        let mut attrs = Vec::new();
+        let mut ids = Vec::new();
+        for a in 0..n_at {
+            let id = match g.rng.below(8) {
+                0 => 300 + a as u32,
+                1 => 70000 + a as u32,
+                _ => a as u32,
+            };
+            ids.push(id);
+            let big = |g: &mut Gen| -> usize {
+                match g.rng.below(25) {
+                    0..=7 => g.rng.range(0, 40) as usize,
+                    8..=14 => g.rng.range(100, 500) as usize,
+                    15..=21 => g.rng.range(500, if oversize { 1100 } else { 1080 }) as usize,
+                    22..=23 if oversize => room - g.rng.range(28, 48) as usize,
+                    22..=23 => room - g.rng.range(60, 80) as usize,
+                    _ if oversize => g.rng.range(1100, 1140) as usize,
+                    _ => g.rng.range(1000, 1080) as usize,
+                }
+            };
+            if g.rng.chance(2, 5) {
+                let n_el = match g.rng.below(6) {
+                    0 => 0,
+                    1 => 1,
+                    _ => g.rng.range(2, 7),
+                } as usize;
+                let lens: Vec<String> = (0..n_el).map(|_| big(g).to_string()).collect();
+                attrs.push(format!("{}=l{}", id, lens.join("+")));
+            } else {
+                attrs.push(format!("{}=s{}", id, big(g)));
+            }
+        }
+        clusters.push((ep, cl, dv, attrs, ids));
+    }
+    let mut c = CaseB {
+        sub,
+        ..Default::default()
+    };
+    for (ep, cl, dv, attrs, _) in &clusters {
+        c.n.push(format!("{}.{}.{}:{}", ep, cl, dv, attrs.join(",")));
+    }
+    // request paths
+    let n_q = g.rng.range(1, 3);
+    let mut qs = Vec::new();
+    for _ in 0..n_q {
+        let (ep, cl, _, _, ids) = g.rng.pick(&clusters).clone();
+        qs.push(match g.rng.below(6) {
+            0 => "*.*.*".to_string(),
+            1 => format!("{}.*.*", ep),
+            2 => format!("{}.{}.*", ep, cl),
+            3 => format!("*.{}.*", cl),
+            // (a subscribe request with a concrete path that does not exist is refused as a whole)
+            4 if sub => format!("{}.{}.{}", ep, cl, g.rng.pick(&ids)),
+            4 => format!("{}.{}.{}", ep, cl, g.rng.below(3)),
+            _ => format!("{}.{}.*", ep, cl),
+        });
+    }
+    c.q = qs.join(",");
+    if g.rng.chance(1, 4) {
+        let (ep, cl, dv, _, _) = g.rng.pick(&clusters).clone();
+        c.f = format!("{}.{}.{}", ep, cl, if g.rng.chance(2, 3) { dv } else { dv.wrapping_add(1) });
+    }
+    if g.rng.chance(1, 2) {
+        let n_ev = g.rng.range(1, 6) as usize;
+        let mut budget = 6000usize;
+        for _ in 0..n_ev {
+            let (ep, cl, _, _, _) = g.rng.pick(&clusters).clone();
+            let len = match g.rng.below(4) {
+                0 => g.rng.range(0, 60) as usize,
+                1 => g.rng.range(400, 700) as usize,
+                2 => g.rng.range(900, 1090) as usize,
+                _ => g.rng.range(100, 300) as usize,
+            };
+            if len + 40 > budget {
+                break;
+            }
+            budget -= len + 40;
+            let ts = *g.rng.pick(&[5u64, 300, 70000, 5000000000]);
+            c.e.push(format!("{}.{}.{}.{}.{}.{}", ep, cl, g.rng.range(1, 3), g.rng.below(3), len, ts));
+        }
+        c.p = match g.rng.below(4) {
+            0 => format!("{}.*.*", clusters[0].0),
+            1 => format!("{}.{}.1,{}.{}.2", clusters[0].0, clusters[0].1, clusters[0].0, clusters[0].1),
+            _ => "*.*.*".to_string(),
+        };
+        if g.rng.chance(1, 4) {
+            c.m = g.rng.range(1, 4).to_string();
+        }
+        if g.rng.chance(1, 6) {
+            c.q = String::new();
+        }
+    }
+    (c, clusters)
 }
 
 fn gen(tier: &str, seed: u64, outdir: &str) {
@@ -1329,84 +1642,135 @@ fn gen(tier: &str, seed: u64, outdir: &str) {
     let n_random = if thorough { 40000 } else { 2500 };
     for _ in 0..n_random {
         let sub = g.rng.chance(1, 3);
-        let room = g.fresh_room(sub);
-        let n_cl = g.rng.range(1, 3) as usize;
-        let eps = [0u16, 1, 300];
-        let cls = [100u32, 300, 70000];
-        let dvs = [7u32, 300, 70000, 4000000000];
-        let mut clusters: Vec<(u16, u32, u32, Vec<String>, Vec<u32>)> = Vec::new();
-        for i in 0..n_cl {
-            let ep = eps[i.min(2)];
-            let cl = *g.rng.pick(&cls);
-            if clusters.iter().any(|c| c.0 == ep && c.1 == cl) {
-                continue;
-            }
-            let dv = *g.rng.pick(&dvs);
-            let n_at = g.rng.range(1, 6) as usize;
-            let mut attrs = Vec::new();
-            let mut ids = Vec::new();
-            for a in 0..n_at {
-                let id = match g.rng.below(8) {
-                    0 => 300 + a as u32,
-                    1 => 70000 + a as u32,
-                    _ => a as u32,
-                };
-                ids.push(id);
-                let big = |g: &mut Gen| -> usize {
-                    match g.rng.below(25) {
-                        0..=7 => g.rng.range(0, 40) as usize,
-                        8..=14 => g.rng.range(100, 500) as usize,
-                        15..=21 => g.rng.range(500, 1100) as usize,
-                        22..=23 => room - g.rng.range(28, 48) as usize,
-                        _ => g.rng.range(1100, 1140) as usize,
-                    }
-                };
-                if g.rng.chance(2, 5) {
-                    let n_el = match g.rng.below(6) {
-                        0 => 0,
-                        1 => 1,
-                        _ => g.rng.range(2, 7),
-                    } as usize;
-                    let lens: Vec<String> = (0..n_el).map(|_| big(&mut g).to_string()).collect();
-                    attrs.push(format!("{}=l{}", id, lens.join("+")));
-                } else {
-                    attrs.push(format!("{}=s{}", id, big(&mut g)));
-                }
-            }
-            clusters.push((ep, cl, dv, attrs, ids));
+        let (c, _) = random_case(&mut g, sub, true);
+        g.emit("r-random", &c);
+    }
+
+    // --- stream u: subscription reports (k=u): prime, change attributes / emit events, the device reports on its own
+    for with_ev in [false, true] {
+        for d in -8i64..=0 {
+            // one changed value swept up to "fits an empty message" (anything larger could not have been primed)
+            let len = len_for_report(0, 100, 1, 7, (g.fresh_room(true) as i64 + d) as usize).unwrap();
+            let c = CaseB {
+                sub: true,
+                upd: true,
+                n: vec![format!("0.100.7:0=s20,1=s{},2=s30", len)],
+                q: "0.100.*".into(),
+                p: if with_ev { "*.*.*".into() } else { String::new() },
+                c: vec!["0.100.1".into()],
+                ..Default::default()
+            };
+            g.emit("u-reports", &c);
         }
-        let mut c = CaseB {
-            sub,
+    }
+    for first in [200usize, 577, 1100] {
+        for d in -6i64..=6 {
+            // two changed values with an unchanged one between them; the second ends d bytes from the end of the message
+            let room = g.fresh_room(true);
+            let l1 = len_for_report(0, 100, 0, 7, first).unwrap();
+            let rest = (room as i64 - first as i64 + d) as usize;
+            let Some(l2) = len_for_report(0, 100, 2, 7, rest) else { continue };
+            let c = CaseB {
+                sub: true,
+                upd: true,
+                n: vec![format!("0.100.7:0=s{},1=s400,2=s{},3=s9", l1, l2)],
+                q: "0.100.*".into(),
+                c: vec!["0.100.2".into(), "0.100.0".into()],
+                ..Default::default()
+            };
+            g.emit("u-reports", &c);
+        }
+    }
+    for (node, q, ch) in [
+        ("0.100.7:0=s500,1=l600+600+600,2=s20", "0.100.*", "0.100.1,0.100.2"),
+        ("0.100.7:0=s500,1=l600+600+600,2=s20", "0.100.*", "0.100.*"),
+        ("0.100.7:0=s500,1=l600+600+600,2=s20", "*.*.*", "1.100.0"),
+        ("0.100.7:0=s500,1=l600+600+600,2=s20;1.300.70000:5=s400,70000=l,300=l200+200+200", "*.*.*", "1.300.*"),
+        ("0.100.7:0=s500,1=l600+600+600,2=s20;1.300.70000:5=s400,70000=l,300=l200+200+200", "*.*.*", "1.300.300,0.100.0,1.300.70000"),
+        ("0.100.7:0=s500,1=l600+600+600,2=s20;1.300.70000:5=s400,70000=l,300=l200+200+200", "0.100.*,1.300.300", "0.100.*,1.300.5"),
+        ("0.100.7:0=l1100+1100+1100+1100,1=l,2=l5,3=l700+700", "0.100.*", "0.100.0,0.100.1,0.100.3"),
+        ("0.100.14:0=s400,1=l1120+5,2=s400,3=l5+1120", "0.100.*", "0.100.*"),
+        ("0.100.7:0=l200+200+200+200+200+200+200+200+200+200+200+200", "0.100.0", "0.100.0"),
+        ("0.100.7:0=s1000,1=l10+10+10+10+10+10+10+10+10+10+10+10+10+10+10+10+10+10+10+10", "0.100.*,0.100.1", "0.100.1"),
+    ] {
+        let c = CaseB {
+            sub: true,
+            upd: true,
+            n: node.split(';').map(|x| x.to_string()).collect(),
+            q: q.into(),
+            c: ch.split(',').map(|x| x.to_string()).collect(),
             ..Default::default()
         };
-        for (ep, cl, dv, attrs, _) in &clusters {
-            c.n.push(format!("{}.{}.{}:{}", ep, cl, dv, attrs.join(",")));
+        g.emit("u-reports", &c);
+    }
+    for d in -5i64..=5 {
+        // a changed value of 600 bytes, a small new event, and a second new event ending d bytes from the end
+        let room = g.fresh_room(true) as i64;
+        let l1 = len_for_report(0, 100, 0, 7, 600).unwrap();
+        let used = 600 + 1 + 2 + event_report(0, 100, 1, 3, 5, 10) as i64;
+        let want = room + 2 - used + d;
+        let base = event_report(0, 100, 2, 4, 70000, 300) as i64 - 300;
+        let elen = (want - base).max(0) as usize;
+        let c = CaseB {
+            sub: true,
+            upd: true,
+            n: vec![format!("0.100.7:0=s{},1=s30", l1)],
+            q: "0.100.*".into(),
+            e: vec!["0.100.1.2.10.5".into(), "0.100.2.1.300.7".into()],
+            p: "*.*.*".into(),
+            c: vec!["0.100.0".into()],
+            e2: vec![
+                "0.100.1.2.10.5".into(),
+                format!("0.100.2.1.{}.70000", elen),
+                "0.100.3.0.40.5000000000".into(),
+            ],
+            ..Default::default()
+        };
+        g.emit("u-reports", &c);
+    }
+    for (q, p, ch, e2, m) in [
+        // events only / attributes only / nothing subscribed that changed / filters / an event larger than a message
+        ("-", "*.*.*", "-", "0.100.1.2.700.5,0.100.2.1.700.300,0.100.3.0.700.70000", "-"),
+        ("0.100.*", "*.*.*", "-", "0.100.1.2.700.5,0.100.2.1.700.300", "-"),
+        ("0.100.*", "*.*.*", "0.100.0", "-", "-"),
+        ("0.100.*", "0.100.1", "0.100.1", "0.100.2.2.30.5,0.100.2.2.30.6", "-"),
+        ("0.100.*", "*.*.*", "0.100.1", "0.100.1.2.30.5,0.100.2.2.30.6,0.100.3.2.30.7", "5"),
+        ("0.100.*", "*.*.*", "0.100.1", "0.100.1.2.30.5,0.100.2.2.1200.6,0.100.3.2.30.7", "-"),
+        ("0.100.*", "*.*.*", "-", "0.100.5.2.30.5,2.100.1.2.30.6", "-"),
+        ("0.100.*", "0.100.1,0.100.1", "0.100.1", "0.100.1.2.600.5,0.100.1.1.600.6", "-"),
+    ] {
+        let c = CaseB {
+            sub: true,
+            upd: true,
+            n: vec!["0.100.7:0=s500,1=l300+300,2=s20".into()],
+            q: if q == "-" { String::new() } else { q.into() },
+            e: vec!["0.100.1.2.600.5".into(), "0.100.2.1.600.300".into(), "0.100.3.0.600.70000".into()],
+            p: p.into(),
+            m: if m == "-" { String::new() } else { m.into() },
+            c: if ch == "-" { vec![] } else { ch.split(',').map(|x| x.to_string()).collect() },
+            e2: if e2 == "-" { vec![] } else { e2.split(',').map(|x| x.to_string()).collect() },
+            ..Default::default()
+        };
+        g.emit("u-reports", &c);
+    }
+    let n_u = if thorough { 6000 } else { 500 };
+    for _ in 0..n_u {
+        let (mut c, clusters) = random_case(&mut g, true, false);
+        c.upd = true;
+        c.f = String::new();
+        if c.q.is_empty() && c.p.is_empty() {
+            c.q = "*.*.*".into();
         }
-        // request paths
-        let n_q = g.rng.range(1, 3);
-        let mut qs = Vec::new();
-        for _ in 0..n_q {
+        // what changes: single attributes or whole clusters (the changed-attribute table holds 16 entries)
+        let n_ch = if g.rng.chance(1, 12) { 0 } else { g.rng.range(1, 4) };
+        for _ in 0..n_ch {
             let (ep, cl, _, _, ids) = g.rng.pick(&clusters).clone();
-            qs.push(match g.rng.below(6) {
-                0 => "*.*.*".to_string(),
-                1 => format!("{}.*.*", ep),
-                2 => format!("{}.{}.*", ep, cl),
-                3 => format!("*.{}.*", cl),
-                // (a subscribe request with a concrete path that does not exist is refused as a whole)
-                4 if sub => format!("{}.{}.{}", ep, cl, g.rng.pick(&ids)),
-                4 => format!("{}.{}.{}", ep, cl, g.rng.below(3)),
-                _ => format!("{}.{}.*", ep, cl),
-            });
+            c.c.push(if g.rng.chance(1, 4) { format!("{}.{}.*", ep, cl) } else { format!("{}.{}.{}", ep, cl, g.rng.pick(&ids)) });
         }
-        c.q = qs.join(",");
-        if g.rng.chance(1, 4) {
-            let (ep, cl, dv, _, _) = g.rng.pick(&clusters).clone();
-            c.f = format!("{}.{}.{}", ep, cl, if g.rng.chance(2, 3) { dv } else { dv.wrapping_add(1) });
-        }
-        if g.rng.chance(1, 2) {
-            let n_ev = g.rng.range(1, 6) as usize;
-            let mut budget = 6000usize;
-            for _ in 0..n_ev {
+        if !c.p.is_empty() {
+            let stored: usize = c.e.iter().map(|e| e.split('.').nth(4).unwrap().parse::<usize>().unwrap() + 40).sum();
+            let mut budget = 7000usize.saturating_sub(stored);
+            for _ in 0..g.rng.range(0, 4) {
                 let (ep, cl, _, _, _) = g.rng.pick(&clusters).clone();
                 let len = match g.rng.below(4) {
                     0 => g.rng.range(0, 60) as usize,
@@ -1419,21 +1783,65 @@ fn gen(tier: &str, seed: u64, outdir: &str) {
                 }
                 budget -= len + 40;
                 let ts = *g.rng.pick(&[5u64, 300, 70000, 5000000000]);
-                c.e.push(format!("{}.{}.{}.{}.{}.{}", ep, cl, g.rng.range(1, 3), g.rng.below(3), len, ts));
-            }
-            c.p = match g.rng.below(4) {
-                0 => format!("{}.*.*", clusters[0].0),
-                1 => format!("{}.{}.1,{}.{}.2", clusters[0].0, clusters[0].1, clusters[0].0, clusters[0].1),
-                _ => "*.*.*".to_string(),
-            };
-            if g.rng.chance(1, 4) {
-                c.m = g.rng.range(1, 4).to_string();
-            }
-            if g.rng.chance(1, 6) {
-                c.q = String::new();
+                c.e2.push(format!("{}.{}.{}.{}.{}.{}", ep, cl, g.rng.range(1, 3), g.rng.below(3), len, ts));
             }
         }
-        g.emit("r-random", &c);
+        g.emit("u-reports", &c);
+    }
+
+    // --- stream a: a peer that answers chunk k with another status (f<k>) or stops talking after it (x<k>);
+    //     afterwards the next interaction: the same request again (read / subscribe after a refusal), or the
+    //     reporter's retry once the peer is back (report after silence: 2 s back-off, so only a few of those)
+    let shapes = [
+        ("0.100.7:0=s500,1=l600+600+600,2=s20", "0.100.*", "", ""),
+        ("0.100.7:0=l1100+1100+1100+1100,1=s900,2=s900", "0.100.*", "", ""),
+        ("0.100.7:0=s900,1=s900", "0.100.*", "0.100.1.2.900.5,0.100.2.1.900.300,0.100.3.0.900.70000", "*.*.*"),
+    ];
+    for (si, (node, q, e, p)) in shapes.iter().enumerate() {
+        for kind in ['r', 's', 'u'] {
+            for ab in ["f1", "f2", "f3", "f9", "x1", "x2", "x3"] {
+                // (silence in a report costs the reporter's back-off: keep two of those per shape in the quick tier)
+                if kind == 'u' && ab.starts_with('x') && !thorough && !(ab == "x2" || (ab == "x1" && si == 0)) {
+                    continue;
+                }
+                let evs: Vec<String> = if e.is_empty() { vec![] } else { e.split(',').map(|x| x.to_string()).collect() };
+                let c = CaseB {
+                    sub: kind != 'r',
+                    upd: kind == 'u',
+                    n: vec![node.to_string()],
+                    q: q.to_string(),
+                    p: p.to_string(),
+                    // for a report the events are emitted after priming
+                    e: if kind == 'u' { vec![] } else { evs.clone() },
+                    e2: if kind == 'u' { evs } else { vec![] },
+                    c: if kind == 'u' { vec!["0.100.*".into()] } else { vec![] },
+                    ab: ab.to_string(),
+                    ..Default::default()
+                };
+                g.emit("a-aborts", &c);
+            }
+        }
+    }
+    let n_a = if thorough { 4000 } else { 400 };
+    for i in 0..n_a {
+        let sub = g.rng.chance(1, 3);
+        let upd = g.rng.chance(1, 4);
+        let (mut c, clusters) = random_case(&mut g, sub || upd, !upd);
+        if upd {
+            c.upd = true;
+            c.f = String::new();
+            if c.q.is_empty() && c.p.is_empty() {
+                c.q = "*.*.*".into();
+            }
+            let (ep, cl, _, _, _) = g.rng.pick(&clusters).clone();
+            c.c.push(format!("{}.{}.*", ep, cl));
+            c.c.push(format!("{}.{}.*", clusters[0].0, clusters[0].1));
+        }
+        let k = g.rng.range(1, 4);
+        // silence in a report is expensive (see above): one in forty of the random ones in the thorough tier only
+        let silent = if upd { thorough && i % 40 == 0 } else { g.rng.chance(1, 3) };
+        c.ab = format!("{}{}", if silent { 'x' } else { 'f' }, k);
+        g.emit("a-aborts", &c);
     }
 
     std::fs::create_dir_all(outdir).unwrap();
